@@ -120,6 +120,28 @@ theorem C10_chain_ids_pointwise (hs : List Holder) (hne : hs ≠ [])
   simp at this
   exact ⟨h, by simp [this.2], ht'⟩
 
+/-- `evaluate_model.main` end to end: complete collections saved one file per chain, the files
+handed over in any order and each presented by the container in any order, give exactly the
+labelled columns "file index, sample" in chain-major order. -/
+theorem C10_evaluate_saved_files (hs : List Holder) (fs : List H5) (hne : hs ≠ [])
+    (hc : ∀ h ∈ hs, h.isComplete = true) (hsv : ∀ h ∈ hs, h.thetas ≠ [] ∧ Saveable h)
+    (hfiles : List.Forall₂ (fun f' h => ∃ f, save h = .ok f ∧ Presents f' f) fs hs) :
+    evaluateFiles fs = .ok (hs.zipIdx.flatMap (fun p => p.1.thetas.map (fun t => (p.2, t)))) := by
+  have hload : fs.mapM load = .ok hs := by
+    clear hne hc
+    induction hfiles with
+    | nil => rfl
+    | @cons f' h fs hs hd _ ih =>
+      obtain ⟨f, hsave, hpres⟩ := hd
+      obtain ⟨f0, h1, h2⟩ := C10_load_save h (hsv h (by simp)).1 (hsv h (by simp)).2
+      rw [hsave] at h1
+      cases h1
+      rw [List.mapM_cons, h2 f' hpres, ih (fun x hx => hsv x (by simp [hx]))]
+      rfl
+  unfold evaluateFiles
+  rw [hload]
+  exact C10_chain_ids_aligned hs hne hc
+
 /-! ### refusals -/
 
 /-- a collection refuses to grow beyond its declared size, refuses out-of-range access (and
